@@ -55,6 +55,34 @@ def _through_flag_def(fn, prog, tb, discr, sw_bb, truth, depth):
     return out
 
 
+_POST_CACHE = {}
+
+
+def _postcondition(prog, t, tb, d, fn, depth):
+    from .terms import subst_term, _closure_hook
+    g = prog.fn(t.callee())
+    if g.kind == "Closure" or g.loop_heads() or len(g.blocks) > 40 or not any(k in ("panic", "assert", "assert_eq", "assert_ne", "unreachable") for (_, k, _, _) in panic_sites(g)):
+        return []
+    key = (prog.path, prog.nonce, g.key)
+    if key not in _POST_CACHE:
+        tbg = TermBuilder(g, prog)
+        common = None
+        for e in g.exits():
+            fs = {}
+            for c, tr, _ in facts_at(g, prog, e, tbg, depth + 1):
+                for c2, tr2 in decompose(c, tr, prog):
+                    fs[repr(c2)] = (c2, tr2)
+            common = fs if common is None else {k: v for k, v in common.items() if k in fs and fs[k][1] == v[1]}
+        _POST_CACHE[key] = list((common or {}).values())
+        _closure_hook[0] = tb._apply_closure_hook
+    post = _POST_CACHE[key]
+    if not post:
+        return []
+    args = [tb.operand(a, d, len(fn.blocks[d].stmts)) for a in t.args]
+    m = {("param", i + 1, g.local_name(i + 1)): a for i, a in enumerate(args) if i + 1 <= g.arg_count}
+    return [(subst_term(c, m), tr) for c, tr in post]
+
+
 def facts_at(fn, prog, bb, tb=None, _depth=0):
     """[(cond_term, truth, switch_bb)] for bool switches whose outcome is fixed on every path to bb"""
     tb = tb or TermBuilder(fn, prog)
@@ -64,6 +92,11 @@ def facts_at(fn, prog, bb, tb=None, _depth=0):
         if d == bb:
             continue
         t = fn.blocks[d].term
+        if t.k == "call" and _depth < 2 and prog is not None and t.callee_is_local() and prog.fn(t.callee()) is not None:
+            # a validating helper (`fn check(b) -> usize { if b < 4 || 18 < b { panic!() } 1 << b }`): what holds at each of its
+            # returns holds after the call, with its parameters read as the arguments
+            out += [(c, tr, d) for c, tr in _postcondition(prog, t, tb, d, fn, _depth)]
+            continue
         if t.k != "switch":
             continue
         succs = list(dict.fromkeys(fn.succs(d)))
